@@ -113,7 +113,7 @@ step!(c03_q_tl_push_nothing, false, Shape { order: Order::Rev3, kind: 2, amb: (2
 step!(c03_q_tl_root_hides_ambient, false, Shape { order: Order::Fwd0, kind: 2, amb: (2, 0, 1), own: (1, 1, 0), push: false, peek: true });
 step!(c03_x_tl_root_first_touch, false, Shape { order: Order::Fwd0, kind: 0, amb: (0, 0, 1), own: (1, 0, 1), push: false, peek: false });
 step!(c03_q_tl_root_empty, false, Shape { order: Order::Rev1, kind: 2, amb: (1, 0, 1), own: (0, 0, 1), push: false, peek: false });
-step!(c03_t_tl_root_two_on_observed, false, Shape { order: Order::Rev3, kind: 1, amb: (0, 0, 1), own: (2, 2, 0), push: false, peek: true });
+step!(c03_x_tl_root_two_on_observed, false, Shape { order: Order::Rev3, kind: 1, amb: (0, 0, 1), own: (2, 2, 0), push: false, peek: true });
 step!(c03_t_tl_push_two_over_two_rev, false, Shape { order: Order::Rev3, kind: 2, amb: (2, 0, 1), own: (2, 1, 2), push: true, peek: false });
 step!(c03_t_tl_push_two_over_two_fwd2, false, Shape { order: Order::Fwd2, kind: 2, amb: (2, 2, 0), own: (2, 0, 1), push: true, peek: true });
 // mutant twin
@@ -225,7 +225,7 @@ pub fn c03_x_tl_via_erased_push() { via_wrapper(true, true); }
 
 #[kani::proof]
 #[kani::unwind(6)]
-pub fn c03_t_tl_via_erased_root() { via_wrapper(true, false); }
+pub fn c03_x_tl_via_erased_root() { via_wrapper(true, false); }
 
 /// `ThreadLocalCtxt::new()` hands out pairwise distinct ids, none of them the shared one
 #[kani::proof]
